@@ -1,5 +1,5 @@
 """Per-property checks: proof obligations + correspondence streams + failing-input search + evidence."""
-import os, sys, json, time, random, re, collections
+import os, sys, json, time, random, re, collections, itertools
 import vlib, streams
 from vlib import log, enc, dec, ORACLE
 
@@ -128,12 +128,69 @@ def stream_lex(ctx):
 
 # ------------------------------------------------------------------------------------------------ registry
 
-REGISTRY = {
+def _registry():
+    S = simple_stream
+    return {
+    'C01': {'proofs': 'C01', 'streams': [stream_expr],
+            'rule': 'expr stream: typed random operator trees (all 13 binary and 2 unary operators, calls, lists, records, nil) rendered with minimal, random-extra and whole-expression parentheses; 20% with ill-typed operands; non-trivial = every distinct program',
+            'assumptions': ['operand evaluation order is modelled but not part of the statement (calls are to pure functions)', 'hardware floating point is tied to SpecFloat by the f64 stream only']},
+    'C02': {'proofs': 'C02', 'streams': [stream_chains],
+            'rule': 'chains stream: every truth assignment of chains of length 1-3 (thorough 1-4), with and without else, in 7 contexts (top, block, loop, chain, else, function, loop in function), after pairs of execution histories (else-less taken if, return from a branch, break from nested ifs, finished loop, return from a loop in a function, finished chains); non-boolean conditions',
+            'assumptions': []},
+    'C03': {'proofs': 'C03', 'streams': [S('loops', pstreams.c03_cases, flags='-')],
+            'rule': 'loops stream: loop nests to depth 4, break/continue under 1-3 conditionals followed textually by nested loops, continue statements and blocks, body-local declarations, loops in functions/blocks/chains after histories; stray break/continue',
+            'assumptions': []},
+    'C04': {'proofs': 'C04', 'streams': [S('scopes', pstreams.c04_cases, flags='-')],
+            'rule': 'scopes stream: random interleavings of declare/assign/read/block/if/else/loop/function over 3 names to depth 5; every read printed', 'assumptions': ['dynamic scoping (a callee sees its caller\'s variables) is the language\'s rule']},
+    'C05': {'proofs': 'C05', 'streams': [S('calls', pstreams.c05_cases, flags='-')],
+            'rule': 'calls stream: arities 0-4 x argument counts, return from nests of if/else/loop/block, 9 call sites, parameter rebinding and callee locals vs caller variables, recursion depth to 200 (thorough 400), mutual recursion', 'assumptions': ['recursion deeper than the native stack is outside the model']},
+    'C06': {'proofs': 'C06', 'streams': [S('alias', pstreams.c06_cases)],
+            'rule': 'alias stream: list/record shapes to depth 4 with aliases by assignment, call, nesting; sequences of indexed writes (valid, out of range, missing key), pushes, pops, concatenations; every container printed through every alias after each operation; final heap compared', 'assumptions': []},
+    'C07': {'proofs': 'C07', 'streams': [stream_gc_heaps, stream_gc_schedules],
+            'rule': 'gc-heaps: direct collector runs (hook verif_collect) on random heaps, post-state compared exactly; gc-schedules: each program under no collection, collection at every boundary, periodic and random schedules and the native trigger (hook gc_schedule): outputs compared with each other and with the model',
+            'assumptions': ['marking recursion depth is bounded by the native stack for very long reference chains (not exhibited by the model)']},
+    'C08': {'proofs': 'C08', 'streams': [stream_gc_heaps, stream_alloc_loops],
+            'rule': 'alloc-loops: top-level loops of N and 4N iterations allocating and dropping containers by 12 routes (empty list/record, 1 and 7 elements, concatenation, split, nesting, cycles): final arenas, free lists and collection counts compared exactly with the model and against an N-independent bound',
+            'assumptions': ['"heap size" is arena length; process memory is not measured']},
+    'C09': {'proofs': 'C09', 'streams': [stream_f64, stream_numbers],
+            'rule': 'f64 stream: std float functions on bit patterns and decimal texts vs the model; numbers stream: literals of 1-17 digits at every split, leading/trailing zeros, arithmetic results: printed text, _স্ট্রিং, read-back equality checked on the implementation and against the model',
+            'assumptions': ['f64::to_string and parse::<f64> are Rust std: modelled (flt2dec Dragon + dec2flt grammar), tied by the f64 stream']},
     'C10': {'proofs': 'C10', 'streams': [stream_lex],
             'rule': 'lex stream: corpus of boundary inputs, prefixes of documented programs, exhaustive short strings over a 14-symbol class alphabet, '
                     'random strings over Bangla letters/digits, all ASCII punctuation, quotes, #, backslash, blanks; non-trivial = distinct source of length >= 2',
             'assumptions': ['char::is_numeric is the table dumped from the running toolchain', 'the source is a sequence of Unicode scalar values (Vec<char>)']},
-}
+    'C11': {'proofs': 'C11', 'streams': [stream_layout],
+            'rule': 'layout stream: each generated program rendered in canonical, minimal (no blank where tokens cannot fuse) and random layouts over {space, tab, LF, CRLF, mixtures, none} plus comment blocks (single-, multi-line, escaped #) between statements; all must print and end the same; each compared with the model',
+            'assumptions': ['identifiers may contain -, _ and /, so a blank is kept before every - that follows an identifier character']},
+    'C12': {'proofs': 'C12', 'streams': [stream_parse],
+            'rule': 'parse stream: all token sequences of length <= 2 (thorough <= 3) over a 42-token alphabet, sampled longer ones, token soups, generated valid programs with every kind of truncation and single/double deletion, duplication, swap, insertion mutants, deep nestings; AST compared with the model',
+            'assumptions': ['native stack exhaustion for nesting depth beyond ~10^4 is not exhibited by the model']},
+    'C13': {'proofs': 'C13', 'streams': [S('faults', pstreams.c13_cases, flags='-'), stream_cli],
+            'rule': 'faults stream: 25 faults x 14 statement/expression positions x call depth 0-3 x inside/outside an imported module, output before and after; cli stream: built binary exit status / stdout / stderr',
+            'assumptions': ['stack overflow (unbounded recursion, printing a cyclic container) is not a panic and not modelled']},
+    'C14': {'proofs': 'C14', 'streams': [S('modules', pstreams.c14_cases, flags='-'), stream_split_equiv],
+            'rule': 'modules stream: 1-3 modules in nested directories with colliding names, nested imports, built-ins/constants inside modules; split-equiv: single-file program vs. definitions moved into an imported module',
+            'assumptions': ['paths are /-separated relative paths without . or .. components']},
+    'C15': {'proofs': 'C15', 'streams': [S('graphs', pstreams.c15_cases, flags='-')],
+            'rule': 'graphs stream: import graphs on 4 files in nested directories (thorough: all 65536 edge subsets; quick: 216 sampled), shuffled import order; import statement forms (missing file, bad extension, non-literal path, truncated)',
+            'assumptions': ['files are identified by path text (the implementation uses canonical paths)']},
+    'C16': {'proofs': 'C16', 'streams': [S('listops', pstreams.c16_cases)],
+            'rule': 'listops stream: operation sequences (<= 15, thorough <= 40) from the empty list through two aliases, positions {0, mid, len-1, len, len+1, -1, 0.5, huge, NaN, non-number}', 'assumptions': []},
+    'C17': {'proofs': 'C17', 'streams': [S('text', pstreams.c17_cases, flags='-')],
+            'rule': 'text stream: split/join on strings over {a, b, ক} with separators of length 0-3 (thorough: all |s|<=6, |sep|<=2 over 2 letters), join-then-split of lists, type names of all 7 types, wrong argument counts/types', 'assumptions': []},
+    'C18': {'proofs': 'C18', 'streams': [S('print', pstreams.c18_cases, flags='-')],
+            'rule': 'print stream: every scalar class, containers to depth 4 in every list/record mix, shared sub-containers, both print statements, unprintable values nested and top-level; exact chunk sequence compared (record entries in key order)',
+            'assumptions': ['record entries are written in HashMap order: compared as a set of entries']},
+    'C19': {'proofs': 'C19', 'streams': [stream_compose],
+            'rule': 'compose stream: P1 from early-exit constructs (return in loop in if, break in nested ifs, else-less ifs, finished loops/chains, allocation churn across the GC threshold), P2 generated with disjoint names (else chains, loops, calls, allocation): P1;P2 vs P1 and P2 alone, and vs the model',
+            'assumptions': []},
+    'C20': {'proofs': 'C20', 'streams': [stream_fs, stream_stdin],
+            'rule': 'fs stream: random sequences of the 7 file built-ins over a small path tree in a scratch directory, final file-system state dumped and compared with the model; stdin stream: built binary with piped input',
+            'assumptions': ['the operating system is assumed to implement std::fs as the finite-map model; permissions, symlinks, non-UTF-8 names are not exercised']},
+    }
+
+
+REGISTRY = None
 
 
 def run_property(pid, tier, seed, t0):
@@ -147,7 +204,10 @@ def run_property(pid, tier, seed, t0):
                                                       'explanation': 'build failed', 'evaluations': 1, 'distinct_nontrivial': 2}, spec['assumptions'], time.time() - t0, 1)
         print('VIOLATION property=%s replay=%s no-failing-input-found' % (pid, p))
         return 1
-    proofs = vlib.check_proofs(st, spec['proofs'], thorough=(tier == 'thorough'))
+    if os.environ.get('VERIF_STREAMS_ONLY'):
+        proofs = {'obligations': 0, 'discharged': 0, 'theorems': [], 'axioms': [], 'failures': [], 'log': ''}
+    else:
+        proofs = vlib.check_proofs(st, spec['proofs'], thorough=(tier == 'thorough'))
     for f in proofs['failures']:
         ctx.broken.append(f)
     if st.tables_generated and st.tables_differ_from_reference:
@@ -218,3 +278,546 @@ def replay(path):
     print('implementation:', i[0]); print('model:         ', m[0])
     print('agree' if vlib.lines_agree(i[0], m[0]) else 'DISAGREE')
     return 0 if vlib.lines_agree(i[0], m[0]) else 1
+
+
+# ================================================================================================ program streams
+import pstreams, genprog
+
+
+def case_line(c, sched=None, flags=None):
+    return vlib.run_line(c['src'], budget=c.get('budget', 8000), sched=sched or c.get('sched', 'n'), flags=flags or c.get('flags', 'h'),
+                         extra_files=c.get('files', ()))
+
+
+def res_kind(line):
+    if ' | res ' not in line: return line.split(' ')[0]
+    r = line.split(' | res ')[1].split(' | ')[0].split(' ')
+    return ' '.join(r[:2]) if r[0] == 'err' else r[0]
+
+
+def out_of(line):
+    """the out section and the result without message: what a program prints and how it ends"""
+    line = vlib.canon_result(line)
+    if not line.startswith('out '): return line
+    parts = line.split(' | ')
+    res = next((p for p in parts if p.startswith('res ')), 'res ?').split(' ')
+    return parts[0] + ' | ' + ' '.join(res[:5])
+
+
+def ends_of(line, with_line=True):
+    """(output, how it ends) with optional error line"""
+    line = vlib.canon_result(line)
+    parts = line.split(' | ')
+    res = next((p for p in parts if p.startswith('res ')), 'res ?').split(' ')
+    if res[1:2] == ['err']:
+        return parts[0], tuple(res[1:5] if with_line else [res[1], res[2], res[4]])
+    return parts[0], tuple(res[1:2])
+
+
+def shrink_lines(src, still_fails):
+    """statement-line deletion"""
+    lines = src.split('\n')
+    cur = lines
+    n = 2
+    rounds = 0
+    while len(cur) > 1 and rounds < 30:
+        rounds += 1
+        size = max(1, len(cur) // n)
+        cands = [cur[:i] + cur[i + size:] for i in range(0, len(cur), size)]
+        res = still_fails(['\n'.join(c) for c in cands])
+        hit = next((c for c, r in zip(cands, res) if r), None)
+        if hit is not None:
+            cur = hit; n = max(2, n - 1)
+        else:
+            if size == 1: break
+            n = min(len(cur), n * 2)
+    return '\n'.join(cur)
+
+
+def diff_programs(ctx, name, cases, sched=None, flags=None, nontrivial=None, shrink=True, extra_check=None):
+    """runs every case through implementation and model; a disagreement (or a failed extra_check on the
+    implementation's result) is a failing input"""
+    lines = [case_line(c, sched, flags) for c in cases]
+    impl, model = oracle_and_model(ctx, lines, name[:6])
+    kinds = collections.Counter(); ckinds = collections.Counter()
+    bad = []
+    disc = 0
+    for c, li, a, b in zip(cases, lines, impl, model):
+        kinds[res_kind(a)] += 1
+        ckinds[c.get('kind', '?').split(' ')[0]] += 1
+        c['_impl'] = a; c['_model'] = b
+        if 'steplimit' in a.split(' | res ')[-1][:12] or a.startswith('driver-timeout'):
+            disc += 1; continue
+        why = None
+        if a in ('panic', 'hang') or a.startswith('crash'): why = 'implementation did not return a value: ' + a
+        elif not vlib.lines_agree(a, b): why = 'implementation and model disagree'
+        elif extra_check:
+            why = extra_check(c, a)
+        if why: bad.append((c, li, a, b, why))
+    ctx.evaluations += len(cases); ctx.validated += len(cases) - disc
+    srcs = set(c['src'] for c in cases)
+    ctx.nontrivial += len([s for s in srcs if (nontrivial(s) if nontrivial else s.count('\n') >= 2)])
+    ctx.streams.append({'stream': name, 'cases': len(cases), 'discarded_steplimit': disc, 'implementation_result_kinds': dict(kinds), 'case_kinds': dict(ckinds)})
+    if cases:
+        c = cases[len(cases) // 2]
+        ctx.samples.append({'stream': name, 'kind': c.get('kind'), 'source': c['src'][:1200], 'files': [f[0] for f in c.get('files', ())], 'implementation': vlib.canon_result(c['_impl'])[:400]})
+    bad.sort(key=lambda b: len(b[0]['src']))
+    for c, li, a, b, why in bad[:2]:
+        small = c['src']
+        if shrink:
+            def still(cands):
+                cs = [dict(c, src=s) for s in cands]
+                ls = [case_line(x, sched, flags) for x in cs]
+                ii, mm = oracle_and_model(ctx, ls, 'shr')
+                return [(not vlib.lines_agree(x, y)) or x in ('panic', 'hang') or (extra_check is not None and extra_check(cc, x) is not None) for cc, x, y in zip(cs, ii, mm)]
+            try: small = shrink_lines(c['src'], still)
+            except Exception as ex: log('shrink failed: %r' % ex)
+        cc = dict(c, src=small)
+        l2 = case_line(cc, sched, flags)
+        ii, mm = oracle_and_model(ctx, [l2], 'shr')
+        ctx.failing.append({'stream': name, 'why': why, 'kind': c.get('kind'), 'source': small, 'files': list(c.get('files', ())), 'case_line': l2,
+                            'implementation': vlib.canon_result(ii[0])[:3000], 'model': vlib.canon_result(mm[0])[:3000], 'original_source': c['src'][:4000], 'others': len(bad)})
+    return impl, model
+
+
+def general_cases(ctx, n, **kw):
+    cases = []
+    for i in range(n):
+        p = genprog.gen_program(ctx.rng, **kw)
+        cases.append({'src': genprog.render(p), 'kind': 'general'})
+    return cases
+
+
+def stream_general(ctx, n_quick=150, n_thorough=1500):
+    cases = general_cases(ctx, n_thorough if ctx.tier == 'thorough' else n_quick)
+    diff_programs(ctx, 'general', cases)
+
+
+# ---- C01
+def stream_expr(ctx):
+    raw = pstreams.c01_cases(ctx.rng, ctx.tier)
+    cases = []
+    for r in raw:
+        for j, e in enumerate(r['exprs']):
+            cases.append({'src': pstreams.prog(r['decl'] + ['দেখাও ' + e + ';']), 'kind': 'expr-' + r['kind'], 'group': id(r), 'variant': j, 'tree': r['tree']})
+    impl, model = diff_programs(ctx, 'expr', cases, flags='-', nontrivial=lambda s: True)
+    # metamorphic, implementation only: redundant parentheses never change the result
+    groups = collections.defaultdict(list)
+    for c, a in zip(cases, impl): groups[c['group']].append((c, out_of(a)))
+    for g in groups.values():
+        base = g[0][1]
+        for c, o in g[1:]:
+            if o != base and len(ctx.failing) < 4:
+                ctx.failing.append({'stream': 'expr-parens', 'why': 'redundant parentheses changed the result', 'source': c['src'], 'case_line': case_line(c, None, '-'),
+                                    'implementation': o[:500], 'expected_same_as': g[0][0]['src'][-300:], 'expected': base[:500]})
+
+
+# ---- metamorphic helper: same program, different collection schedules (C07)
+def stream_gc_schedules(ctx):
+    progs = pstreams.c07_programs(ctx.rng, ctx.tier) + general_cases(ctx, 300 if ctx.tier == 'thorough' else 50, risky=0.05)
+    scheds = ['e', '1', '10', '01', '110', '0001']
+    extra = 6 if ctx.tier == 'thorough' else 2
+    cases = []
+    for p in progs:
+        ss = scheds[:2] + ctx.rng.sample(scheds[2:], 2) + [''.join(ctx.rng.choice('01') for _ in range(ctx.rng.randint(3, 12))) for _ in range(extra)] + ['n']
+        for s in ss:
+            cases.append(dict(p, sched=s, flags='h', group=id(p), budget=3000))
+    impl, model = diff_programs(ctx, 'gc-schedules', cases, shrink=False)
+    groups = collections.defaultdict(list)
+    for c, a in zip(cases, impl): groups[c['group']].append((c, out_of(a)))
+    for g in groups.values():
+        base = next((o for c, o in g if c['sched'] == 'e'), g[0][1])
+        for c, o in g:
+            if o != base and 'steplimit' not in o and 'steplimit' not in base and len(ctx.failing) < 4:
+                ctx.failing.append({'stream': 'gc-schedules-metamorphic', 'why': 'a collection schedule changed what the program prints or how it ends',
+                                    'schedule': c['sched'], 'source': c['src'], 'case_line': case_line(c), 'implementation': o[:1500], 'without_collection': base[:1500]})
+
+
+def stream_gc_heaps(ctx):
+    import streams as st
+    n = 20000 if ctx.tier == 'thorough' else 1500
+    lines = ['gc ' + st.rand_heap(ctx.rng, force_cycle=(i % 3 == 0), max_lists=(10 if i % 7 == 0 else 5), max_recs=(6 if i % 7 == 0 else 3)) for i in range(n)]
+    impl, model = oracle_and_model(ctx, lines, 'gch')
+    bad = [(l, a, b) for l, a, b in zip(lines, impl, model) if a != b]
+    ctx.evaluations += n; ctx.validated += n; ctx.nontrivial += len(set(lines))
+    ctx.streams.append({'stream': 'gc-heaps', 'cases': n, 'rule': 'random heaps: <=10 list slots, <=6 record slots, sharing, forced cycles, list<->record nesting, pre-existing free lists, 1-3 scopes'})
+    ctx.samples.append({'stream': 'gc-heaps', 'case': lines[1][:300], 'implementation': impl[1][:300]})
+    for l, a, b in sorted(bad, key=lambda x: len(x[0]))[:2]:
+        ctx.failing.append({'stream': 'gc-heaps', 'why': 'collector and model disagree on the heap after one collection', 'case_line': l, 'implementation': a, 'model': b, 'others': len(bad)})
+
+
+def heap_stats(line):
+    m = re.search(r'lists=\[(.*?)\] free_lists=\[(.*?)\] recs=\[(.*?)\] free_recs=\[(.*?)\] alloc=(\d+) collections=(\d+)\+(\d+)', line)
+    if not m: return None
+    nl = len(re.findall(r'\[[^\]]*\]', m.group(1)))
+    nr = len(re.findall(r'\{[^}]*\}', m.group(3)))
+    return {'lists': nl, 'recs': nr, 'free_lists': len(m.group(2).split()), 'free_recs': len(m.group(4).split()), 'collections': int(m.group(6)) + int(m.group(7))}
+
+
+def stream_alloc_loops(ctx):
+    cases = pstreams.c08_programs(ctx.rng, ctx.tier)
+    impl, model = diff_programs(ctx, 'alloc-loops', cases, shrink=False, nontrivial=lambda s: True)
+    byroute = collections.defaultdict(list)
+    for c, a in zip(cases, impl):
+        st = heap_stats(a)
+        if st: byroute[c['route']].append((c['N'], st, c))
+    table = {}
+    for route, rows in byroute.items():
+        rows.sort(key=lambda r: r[0])
+        table[route] = [(n, s['lists'], s['recs'], s['collections']) for n, s, _ in rows]
+        small, big = rows[0], rows[-1]
+        # heap size must not grow with the number of iterations: allow the arena of the longest run to exceed the
+        # shortest one's only by a constant (one collection period)
+        bound = 2100
+        if big[1]['lists'] > bound or big[1]['recs'] > bound or big[1]['lists'] > small[1]['lists'] + 1100 or big[1]['recs'] > small[1]['recs'] + 1100:
+            ctx.failing.append({'stream': 'alloc-loops-bound', 'why': 'arena size grows with the number of iterations (route %s: %r)' % (route, table[route]),
+                                'source': big[2]['src'], 'case_line': case_line(big[2]), 'implementation': str(big[1])})
+        if big[0] >= 2000 and big[1]['collections'] == 0:
+            ctx.failing.append({'stream': 'alloc-loops-bound', 'why': 'no collection was triggered by %d allocating iterations (route %s)' % (big[0], route),
+                                'source': big[2]['src'], 'case_line': case_line(big[2]), 'implementation': str(big[1])})
+    ctx.streams.append({'stream': 'alloc-loops-table', 'route -> [(iterations, list slots, record slots, collections)]': table})
+
+
+# ---- C02: chain with and without history
+def stream_chains(ctx):
+    raw = pstreams.c02_cases(ctx.rng, ctx.tier)
+    cases = [dict(c) for c in raw]
+    impl, model = diff_programs(ctx, 'chains', cases, flags='-', nontrivial=lambda s: True)
+    # metamorphic: the chain behaves the same after any history (suffix of the output is the chain alone)
+    alone = [dict(c, src=c['alone']) for c in raw if c.get('alone')]
+    lines = [case_line(c, None, '-') for c in alone]
+    ai = vlib.run_sharded(ORACLE, lines, 'alone')
+    k = 0
+    for c, a in zip(cases, impl):
+        if not c.get('alone'): continue
+        al = ai[k]; k += 1
+        o_full, e_full = ends_of(a, with_line=False)
+        o_al, e_al = ends_of(al, with_line=False)
+        chunks_al = o_al.split(' ')[1:]
+        chunks_full = o_full.split(' ')[1:]
+        if e_full != e_al or (chunks_al and chunks_full[-len(chunks_al):] != chunks_al):
+            if len(ctx.failing) < 4:
+                ctx.failing.append({'stream': 'chains-history', 'why': 'an if/else chain behaved differently after an execution history', 'kind': c['kind'], 'source': c['src'],
+                                    'case_line': case_line(c, None, '-'), 'implementation': a[:1500], 'chain_alone': al[:1500]})
+    ctx.evaluations += len(alone)
+
+
+def simple_stream(name, gen, **kw):
+    def f(ctx):
+        cases = gen(ctx.rng, ctx.tier)
+        diff_programs(ctx, name, cases, **kw)
+    f.__name__ = 'stream_' + name
+    return f
+
+
+# ---- C09
+def stream_f64(ctx):
+    import struct
+    rng = ctx.rng
+    n = 60000 if ctx.tier == 'thorough' else 3000
+    def rb():
+        k = rng.random()
+        if k < 0.4: return rng.getrandbits(64)
+        if k < 0.6: return struct.unpack('<Q', struct.pack('<d', rng.choice([0.1, 1.0, 2.5, 1e22, 1e23, 5e-324, 1.7976931348623157e308, 123456789.125, 0.3, 1 / 3, 2.0 ** 53, 2.0 ** 53 + 2, 1e-7, 123e-20, 2.28, 1.05])))[0]
+        if k < 0.7: return rng.choice([0, 1 << 63, 0x7ff0000000000000, 0xfff0000000000000, 0x7ff8000000000000, 1, 0x000fffffffffffff, 0x0010000000000000, 0x7fefffffffffffff])
+        if k < 0.8: return (rng.randrange(2047) << 52)                      # powers of two
+        if k < 0.9: return struct.unpack('<Q', struct.pack('<d', float(rng.randint(-10 ** rng.randint(1, 17), 10 ** rng.randint(1, 17)))))[0]
+        return struct.unpack('<Q', struct.pack('<d', rng.uniform(-1000, 1000)))[0]
+    lines = []
+    for i in range(n): lines.append('f64 print %016x' % rb())
+    for i in range(n): lines.append('f64 arith %s %016x %016x' % (rng.choice(['add', 'sub', 'mul', 'div', 'rem']), rb(), rb()))
+    for i in range(n // 4): lines.append('f64 usize %016x' % rb())
+    for i in range(n):
+        digs = ''.join(rng.choice('0123456789') for _ in range(rng.randint(1, 20)))
+        k = rng.randint(0, len(digs))
+        t = digs[:k] + ('.' if rng.random() < 0.7 else '') + digs[k:]
+        if rng.random() < 0.3: t += rng.choice('eE') + rng.choice(['', '-', '+']) + str(rng.randint(0, 330))
+        if rng.random() < 0.2: t = rng.choice('-+') + t
+        if rng.random() < 0.05: t = rng.choice(['inf', 'nan', 'Infinity', 'x', '1_0', '0x1', ' 1', '1 ', '', '.', 'e1', '1e', '1e+', '--1', 'iNf', 'infinit'])
+        lines.append('f64 parse %s' % enc(t))
+    impl, model = oracle_and_model(ctx, lines, 'f64')
+    # print -> parse round trip on the implementation's std (part of C09's statement, checked directly)
+    bad = [(l, a, b) for l, a, b in zip(lines, impl, model) if a != b]
+    ctx.evaluations += len(lines); ctx.validated += len(lines); ctx.nontrivial += len(set(lines))
+    ctx.streams.append({'stream': 'f64', 'cases': len(lines), 'rule': 'f64::to_string, parse::<f64>, as usize, + - * / % on bit patterns (random, specials, subnormals, powers of two, 2^53 neighbourhood) and random decimal texts incl. exponent and malformed forms'})
+    ctx.samples.append({'stream': 'f64', 'case': lines[0], 'implementation': impl[0][:200]})
+    for l, a, b in bad[:2]:
+        ctx.failing.append({'stream': 'f64', 'why': 'model of the std float function disagrees with the implementation', 'case_line': l, 'implementation': a, 'model': b, 'others': len(bad)})
+
+
+def c09_check(c, a):
+    """C09 on the implementation's own output: printing then reading back gives the same number"""
+    if c.get('kind') in ('literal', 'arith'):
+        out, end = ends_of(a)
+        chunks = out.split(' ')[1:]
+        if end == ('ok',):
+            # program prints: ক, _স্ট্রিং(ক), roundtrip == ক, [literal: _সংখ্যা(lit) == ক]
+            texts = [dec(x[2:]) for x in chunks]
+            if c['kind'] == 'literal':
+                if texts[0] != texts[1]: return '_স্ট্রিং differs from the printed text: %r vs %r' % (texts[1], texts[0])
+                if texts[2] != 'সত্য': return 'reading the printed text back does not give the same number'
+                if texts[3] != 'সত্য': return '_সংখ্যা of the literal text differs from the literal'
+                if not re.fullmatch(r'-?[০-৯]+(\.[০-৯]+)?', texts[0]): return 'printed number is not plain Bangla-digit decimal text: %r' % texts[0]
+            else:
+                if texts[1] != 'সত্য': return 'reading the printed text back does not give the same number'
+    return None
+
+
+def stream_numbers(ctx):
+    cases = pstreams.c09_literal_cases(ctx.rng, ctx.tier)
+    diff_programs(ctx, 'numbers', cases, flags='-', nontrivial=lambda s: True, extra_check=c09_check)
+
+
+# ---- C11 layout
+SEP_CHOICES = [' ', '\t', '\n', '\r\n', '  ', ' \n\t ', '']
+
+
+def needs_sep(a, b):
+    """conservative: may two adjacent token texts fuse into something else when written without a blank"""
+    ident_last = lambda t: not (ord(t[-1]) < 128 and not (t[-1].isalnum() or t[-1] in '-_/'))
+    ident_first = lambda t: not (ord(t[0]) < 128 and not (t[0].isalnum() or t[0] in '-_/'))
+    if a.startswith('#') or b.startswith('#'): return False
+    if a.startswith('"') or b.startswith('"'): return False
+    if ident_last(a) and ident_first(b): return True
+    if a[-1] in '=!<>' and b[0] == '=': return True
+    if a[-1] == '-' and (b[0] == '>' or b[0] in genprog.BN or ident_first(b)): return True
+    if b[0] == '-': return True            # '-' after an identifier character continues the identifier; keep a blank always
+    if a[-1] in genprog.BN + '.' and b[0] == '.': return True
+    if a[-1] == '.' : return True
+    return False
+
+
+def layout(rng, stmts, mode):
+    out = []
+    toks = [t for s in stmts for t in s]
+    for i, t in enumerate(toks):
+        out.append(t)
+        if i + 1 < len(toks):
+            nxt = toks[i + 1]
+            if mode == 'min': sep = ' ' if needs_sep(t, nxt) else ''
+            elif mode == 'canon': sep = ' '
+            else:
+                sep = rng.choice(SEP_CHOICES)
+                if sep == '' and needs_sep(t, nxt): sep = rng.choice(SEP_CHOICES[:5])
+            out.append(sep)
+    return ''.join(out) + rng.choice(['', '\n', ' '])
+
+
+def with_comments(rng, stmts):
+    out = []
+    for s in stmts:
+        if rng.random() < 0.3 and s not in (['{'],) :
+            out.append([rng.choice(['# মন্তব্য #', '#\nবহু লাইন\nমন্তব্য\n#', '# এতে \\# আছে #', '##', '# দেখাও ১; #'])])
+        out.append(s)
+    return out
+
+
+def stream_layout(ctx):
+    n = 400 if ctx.tier == 'thorough' else 60
+    nlay = 24 if ctx.tier == 'thorough' else 8
+    progs = []
+    for i in range(n):
+        g = genprog.Gen(ctx.rng, risky=0.05, ill_typed=0.01)
+        st = g.program(ctx.rng.randint(3, 10))
+        st = [s for s in st if not s[0].startswith('#')]
+        progs.append(st)
+    # the documented no-blank subtraction forms
+    progs += [[['নাম', 'ক', '=', '[', '৫', ']', ';'], ['দেখাও', '৫', '-', '১', ';'], ['দেখাও', 'ক', '[', '০', ']', '-', '১', ';'], ['দেখাও', '(', 'ক', '[', '০', ']', ')', '-', '১', ';'], ['দেখাও', '৫', '-', '-১', ';']]]
+    cases = []
+    for gi, st in enumerate(progs):
+        variants = [('canon', layout(ctx.rng, st, 'canon')), ('min', layout(ctx.rng, st, 'min'))]
+        for j in range(nlay - 3): variants.append(('rand', layout(ctx.rng, st, 'rand')))
+        stc = with_comments(ctx.rng, st)
+        # comments go between statements: keep separators around them
+        variants.append(('comments', '\n'.join(' '.join(s) for s in stc) + '\n'))
+        for mode, src in variants:
+            cases.append({'src': src, 'kind': 'layout-' + mode, 'group': gi})
+    impl, model = diff_programs(ctx, 'layout', cases, flags='-', nontrivial=lambda s: True)
+    groups = collections.defaultdict(list)
+    for c, a in zip(cases, impl): groups[c['group']].append((c, ends_of(a, with_line=False)))
+    for g in groups.values():
+        base = g[0][1]
+        for c, o in g[1:]:
+            if o != base and len(ctx.failing) < 4:
+                ctx.failing.append({'stream': 'layout-metamorphic', 'why': 'a re-layout of the same token sequence changed what the program prints or how it ends', 'kind': c['kind'],
+                                    'source': c['src'], 'case_line': case_line(c, None, '-'), 'implementation': str(o)[:1000], 'canonical_layout_source': g[0][0]['src'], 'canonical_layout_result': str(base)[:1000]})
+
+
+# ---- C12 parser
+TOKEN_ALPHABET = ['নাম', 'যদি', 'অথবা', 'লুপ', 'ফাং', 'ফেরত', 'থামাও', 'আবার', 'দেখাও', '_দেখাও', 'সত্য', 'মিথ্যা', 'মডিউল', 'ক', '১', '"s"', '+', '-', '*', '/', '%', '@', ';', '->',
+                  '# c #', ',', '(', ')', '{', '}', '[', ']', '=', '<', '>', '==', '!=', '<=', '>=', '&', '|', '!']
+
+
+def parse_line(src, files=()):
+    return 'parse ' + vlib.files_arg([('m.pakhi', src)] + list(files))
+
+
+def stream_parse(ctx):
+    rng = ctx.rng
+    srcs = []
+    # exhaustive short token sequences
+    maxlen = 3 if ctx.tier == 'thorough' else 2
+    for n in range(0, maxlen + 1):
+        for w in itertools.product(TOKEN_ALPHABET, repeat=n): srcs.append((' '.join(w), 'exhaustive%d' % n))
+    if ctx.tier != 'thorough':
+        for _ in range(3000): srcs.append((' '.join(rng.choice(TOKEN_ALPHABET) for _ in range(3)), 'sample3'))
+        for _ in range(1500): srcs.append((' '.join(rng.choice(TOKEN_ALPHABET) for _ in range(rng.randint(4, 12))), 'soup'))
+    else:
+        for _ in range(60000): srcs.append((' '.join(rng.choice(TOKEN_ALPHABET) for _ in range(rng.randint(4, 14))), 'soup'))
+    # valid programs, their truncations and token mutants
+    nprog = 300 if ctx.tier == 'thorough' else 60
+    for _ in range(nprog):
+        st = genprog.gen_program(rng, risky=0.05)
+        toks = genprog.flat_tokens(st)
+        srcs.append((genprog.render(st), 'valid'))
+        for _ in range(12 if ctx.tier == 'thorough' else 5):
+            k = rng.randrange(len(toks) + 1); srcs.append((' '.join(toks[:k]), 'truncated'))
+        for _ in range(30 if ctx.tier == 'thorough' else 10):
+            t = list(toks)
+            for _ in range(rng.choice([1, 1, 2])):
+                op = rng.choice(['del', 'dup', 'swap', 'ins'])
+                if not t: break
+                i = rng.randrange(len(t))
+                if op == 'del': del t[i]
+                elif op == 'dup': t.insert(i, t[i])
+                elif op == 'swap' and len(t) > 1:
+                    j = rng.randrange(len(t)); t[i], t[j] = t[j], t[i]
+                else: t.insert(i, rng.choice(TOKEN_ALPHABET))
+            srcs.append((' '.join(t), 'mutant'))
+    # documented forms nested deeply
+    for d in ([5, 50, 300] if ctx.tier != 'thorough' else [5, 50, 300, 2000]):
+        srcs.append(('দেখাও ' + '(' * d + '১' + ')' * d + ';', 'deep-parens'))
+        srcs.append(('দেখাও ' + '[' * d + '১' + ']' * d + ';', 'deep-list'))
+        srcs.append(('দেখাও ' + '-' * 1 + ' -' * d + ' ১;', 'deep-unary'))
+        srcs.append(('যদি সত্য { ' * d + 'দেখাও ১; ' + '} ' * d, 'deep-if'))
+        srcs.append(('দেখাও ' + '১ + ' * d + '১;', 'long-chain'))
+        srcs.append(('দেখাও ' + '@{"k" -> ' * d + '১' + ',}' * d + ';', 'deep-rec'))
+    lines = [parse_line(s) for s, _ in srcs]
+    impl, model = oracle_and_model(ctx, lines, 'parse')
+    origins = collections.Counter(o for _, o in srcs)
+    kinds = collections.Counter()
+    bad = []
+    for (s, o), l, a, b in zip(srcs, lines, impl, model):
+        kinds[a.split(' ')[0] + ((' ' + a.split(' ')[1]) if a.startswith('err') else '')] += 1
+        why = None
+        if a in ('panic', 'hang') or a.startswith('crash') or a.startswith('driver'): why = 'parser did not return a value: ' + a
+        elif not vlib.lines_agree(a, b): why = 'parser and model disagree'
+        elif o == 'valid' and not a.startswith('ok'): why = 'a program composed of documented forms was rejected: ' + a[:80]
+        if why: bad.append((s, l, a, b, why))
+    ctx.evaluations += len(srcs); ctx.validated += len(srcs); ctx.nontrivial += len(set(s for s, _ in srcs if len(s) > 3))
+    ctx.streams.append({'stream': 'parse', 'cases': len(srcs), 'origins': dict(origins), 'implementation_result_kinds': dict(kinds)})
+    ctx.samples.append({'stream': 'parse', 'source': srcs[len(srcs) // 2][0][:300], 'implementation': impl[len(srcs) // 2][:300]})
+    bad.sort(key=lambda x: len(x[0]))
+    for s, l, a, b, why in bad[:2]:
+        def still(cands):
+            ls = [parse_line(c) for c in cands]
+            ii, mm = oracle_and_model(ctx, ls, 'shr')
+            return [x in ('panic', 'hang') or x.startswith('crash') or not vlib.lines_agree(x, y) for x, y in zip(ii, mm)]
+        toks = s.split(' ')
+        small = s
+        if len(toks) > 1 and why != 'a program composed of documented forms was rejected: ' + a[:80]:
+            small = ' '.join(shrink_lines('\n'.join(toks), lambda cs: still([c.replace('\n', ' ') for c in cs])).split('\n'))
+        ii, mm = oracle_and_model(ctx, [parse_line(small)], 'shr')
+        ctx.failing.append({'stream': 'parse', 'why': why, 'source': small, 'case_line': parse_line(small), 'implementation': ii[0][:1500], 'model': mm[0][:1500], 'original_source': s[:2000], 'others': len(bad)})
+
+
+# ---- C13 cli
+def stream_cli(ctx):
+    ok, err = vlib.build_pakhi_bin()
+    if not ok:
+        ctx.broken.append('the command-line tool does not build: ' + err[-300:]); return
+    import subprocess, tempfile, shutil
+    d = os.path.join(vlib.SCRATCH, 'cli_%d' % os.getpid())
+    os.makedirs(d, exist_ok=True)
+    progs = [('দেখাও "ঠিক";\n', 0, 'ঠিক\n', None), ('দেখাও "আগে";\n_এরর("বার্তা");\nদেখাও "পরে";\n', 1, 'আগে\n', 'RuntimeError: বার্তা'),
+             ('দেখাও ১;\nদেখাও ১ + "a";\n', 1, '১\n', 'TypeError'), ('দেখাও অজানা;\n', 1, '', 'RuntimeError'), ('দেখাও "a\n', 1, '', 'SyntaxError'), ('দেখাও ১ $ ২;', 1, '', 'SyntaxError'),
+             ('নাম ক = [১];\nদেখাও ক[৫];\n', 1, '', 'RuntimeError'), ('মডিউল ক = "নাই.pakhi";\n', 1, '', 'RuntimeError'), ('যদি ১ {\n}\n', 1, '', 'RuntimeError'), ('}', 1, '', 'RuntimeError'), ('দেখাও (১', 1, '', None)]
+    n = 0
+    for src, status, stdout, errhead in progs:
+        p = os.path.join(d, 'p.pakhi')
+        open(p, 'w', encoding='utf-8').write(src)
+        try:
+            r = subprocess.run([vlib.PAKHI_BIN, 'p.pakhi'], cwd=d, capture_output=True, timeout=20, stdin=subprocess.DEVNULL)
+        except subprocess.TimeoutExpired:
+            ctx.failing.append({'stream': 'cli', 'why': 'command-line tool hangs', 'source': src}); continue
+        n += 1
+        so, se = r.stdout.decode('utf-8', 'replace'), r.stderr.decode('utf-8', 'replace')
+        why = None
+        if r.returncode != status: why = 'exit status %d, expected %d' % (r.returncode, status)
+        elif so != stdout: why = 'stdout %r, expected %r' % (so, stdout)
+        elif status == 1 and (not se.strip() or 'panicked' in se): why = 'no diagnostic on stderr or a panic: %r' % se[:200]
+        elif errhead and not se.startswith(errhead): why = 'stderr starts with %r, expected %r' % (se[:60], errhead)
+        elif status == 1 and errhead and 'UnexpectedError' not in errhead and 'at file: ' not in se: why = 'diagnostic does not name file and line: %r' % se[:200]
+        if why: ctx.failing.append({'stream': 'cli', 'why': why, 'source': src, 'stderr': se[:500], 'stdout': so[:500], 'status': r.returncode})
+    shutil.rmtree(d, ignore_errors=True)
+    ctx.evaluations += n; ctx.validated += n
+    ctx.streams.append({'stream': 'cli', 'cases': n, 'rule': 'built pakhi binary: exit status, stdout, first stderr line'})
+
+
+# ---- C14 split equivalence (metamorphic)
+def stream_split_equiv(ctx):
+    raw = pstreams.split_equiv_cases(ctx.rng, ctx.tier)
+    cases = []
+    for r in raw:
+        cases.append({'src': r['src'], 'kind': 'split-one', 'group': id(r)})
+        cases.append({'src': r['split'][0], 'files': r['split'][1], 'kind': 'split-two', 'group': id(r)})
+    impl, model = diff_programs(ctx, 'split-equiv', cases, flags='-', shrink=False)
+    for i in range(0, len(cases), 2):
+        a, b = ends_of(impl[i], with_line=False), ends_of(impl[i + 1], with_line=False)
+        a = (a[0], tuple(x for j, x in enumerate(a[1]) if j != 3)); b = (b[0], tuple(x for j, x in enumerate(b[1]) if j != 3))
+        if (a[0], a[1][:2]) != (b[0], b[1][:2]) and len(ctx.failing) < 4:
+            ctx.failing.append({'stream': 'split-equiv', 'why': 'moving definitions into an imported module changed the behaviour', 'source': cases[i + 1]['src'], 'files': cases[i + 1]['files'],
+                                'case_line': case_line(cases[i + 1], None, '-'), 'implementation': str(b)[:1000], 'single_file_source': cases[i]['src'], 'single_file_result': str(a)[:1000]})
+
+
+# ---- C19 compose (metamorphic + model)
+def stream_compose(ctx):
+    raw = pstreams.c19_cases(ctx.rng, ctx.tier)
+    cases = []
+    for r in raw:
+        cases.append({'src': r['p1'], 'kind': 'p1', 'g': id(r)})
+        cases.append({'src': r['p2'], 'kind': 'p2', 'g': id(r)})
+        cases.append({'src': r['p1'] + r['p2'], 'kind': 'p1p2', 'g': id(r), 'shift': r['p1'].count('\n')})
+    impl, model = diff_programs(ctx, 'compose', cases, flags='-', shrink=False)
+    for i in range(0, len(cases), 3):
+        o1, e1 = ends_of(impl[i]); o2, e2 = ends_of(impl[i + 1]); o12, e12 = ends_of(impl[i + 2])
+        if e1 != ('ok',) or 'steplimit' in str(e2) or 'steplimit' in str(e12): continue
+        want_out = ' '.join(['out'] + [x for x in o1.split(' ')[1:] + o2.split(' ')[1:] if x])
+        want_end = e2
+        if e2[:1] == ('err',) and e2[1] != 'Unexpected':
+            want_end = (e2[0], e2[1], str(int(e2[2]) + cases[i + 2]['shift']) if e2[2] != '0' else '0', e2[3])
+        if (' '.join(x for x in o12.split(' ') if x), e12) != (want_out, want_end) and len(ctx.failing) < 4:
+            ctx.failing.append({'stream': 'compose', 'why': 'P1;P2 does not behave as P1 followed by P2 alone', 'source': cases[i + 2]['src'], 'case_line': case_line(cases[i + 2], None, '-'),
+                                'implementation': str((o12, e12))[:1500], 'expected': str((want_out, want_end))[:1500], 'p2_alone': str((o2, e2))[:800]})
+
+
+# ---- C20 fs
+def stream_fs(ctx):
+    raw = pstreams.c20_cases(ctx.rng, ctx.tier)
+    cases = [{'src': pstreams.prog(r['stmts']), 'kind': 'fs', 'files': [('d/pre.txt', 'আগে থেকে')] if ctx.rng.random() < 0.5 else []} for r in raw]
+    diff_programs(ctx, 'fs', cases, flags='f', nontrivial=lambda s: True)
+
+
+def stream_stdin(ctx):
+    ok, err = vlib.build_pakhi_bin()
+    if not ok:
+        ctx.broken.append('the command-line tool does not build'); return
+    import subprocess, shutil
+    d = os.path.join(vlib.SCRATCH, 'stdin_%d' % os.getpid())
+    os.makedirs(d, exist_ok=True)
+    src = 'নাম ক = _রিড-লাইন();\nনাম খ = _রিড-লাইন();\nনাম গ = _রিড-লাইন();\nদেখাও "[" + ক + "]";\nদেখাও "[" + খ + "]";\nদেখাও "[" + গ + "]";\n'
+    open(os.path.join(d, 'p.pakhi'), 'w', encoding='utf-8').write(src)
+    n = 0
+    for inp, want in [('এক\nদুই\nতিন\n', ['এক', 'দুই', 'তিন']), ('a  \r\n\tb \nc', ['a', '\tb', 'c']), ('শুধু এক\n', ['শুধু এক', '', '']), ('', ['', '', '']), ('x\n\ny\n', ['x', '', 'y'])]:
+        r = subprocess.run([vlib.PAKHI_BIN, 'p.pakhi'], cwd=d, capture_output=True, timeout=20, input=inp.encode('utf-8'))
+        n += 1
+        got = r.stdout.decode('utf-8', 'replace')
+        exp = ''.join('[%s]\n' % w for w in want)
+        if got != exp or r.returncode != 0:
+            ctx.failing.append({'stream': 'stdin', 'why': '_রিড-লাইন does not return the next input lines without terminator', 'stdin': inp, 'stdout': got, 'expected': exp, 'source': src})
+    shutil.rmtree(d, ignore_errors=True)
+    ctx.evaluations += n; ctx.validated += n
+    ctx.streams.append({'stream': 'stdin', 'cases': n, 'rule': 'built pakhi binary with piped stdin: successive _রিড-লাইন() calls'})
+
+
+REGISTRY = _registry()
